@@ -82,7 +82,7 @@ class C10(PropBase):
     def phase2(self, rng, ctx, cases, impl_out, tier):
         more = []
         for c in cases:
-            if c.meta.get('rule') == 'dstar' and c.meta.get('side') == 'R':
+            if c.meta.get('rule') in ('dstar', 'filter') and c.meta.get('side') == 'R':
                 more.append(Case('unfold', [c.args[1], '0', '0'], 'unfold', {'for': c.args[1]}))
         return more
     def keys_for(self, v, s):
@@ -145,6 +145,9 @@ class C10(PropBase):
                     fails.append((lc, lo, '**: %r gives %r, union over /* levels restricted to leaf types %r' % (lc.args[1], left, sorted(right))))
             elif rule == 'filter':
                 k, val = lc.meta['key'], lc.meta['val']
+                ru = unfolds.get(R[0][0].args[1]) if R else None
+                if not ru or ru[0] != 'ok' or not all(k in dict(x[2]) for x in ru[1]):
+                    continue      # the rule is about a key that (all) the searched types have; otherwise the filter adds a level (C07)
                 right = sorted(set(key(x) for _, o in R for x in o[1] if dict(x[2]).get(k) == val))
                 if left != right:
                     fails.append((lc, lo, 'filter %s=%s: %r gives %r, filtered unfiltered results %r' % (k, val, lc.args[1], left, right)))
